@@ -14,7 +14,8 @@ RULE = ("selector lists (1-3 complex selectors, 1-3 compounds, all combinators; 
         "pseudo-class, pseudo-element, selector pseudos incl. :not/:is/:current/vendor prefixes, nested to depth 2) sent "
         "through selector.is-superselector: random pairs, reflexive pairs, (list, extension of a member) pairs built "
         "by adding simple selectors / root ancestors / parents, and chains a >= b >= c built by specialisation steps "
-        "with random perturbations for transitivity; distinct = distinct query tuple; non-trivial = the first query "
+        "with random perturbations for transitivity, plus chains `L k M S` >= `L k M x S` >= `L k M x M' S` where the ancestor "
+        "walk must pass a nearer, only locally matching copy of M (also inside lists and :is()); distinct = distinct query tuple; non-trivial = the first query "
         "is not between syntactically equal lists")
 EXHAUSTIVE = {"quick": False, "thorough": False}
 TRUSTED = ["props/selkit.py prints the structured selector as source text; the Coq term carries the structure the "
@@ -140,6 +141,37 @@ def spec_list(rng, l):
     return l2
 
 
+def backtrack_triple(rng):
+    """a = `L k M  S` (descendant combinator over a complex left part), b = a with a filler ancestor inserted before S,
+    c = b with a second, only locally matching copy of M inserted nearest to S: the ancestor walk of a over c has to go
+    past the near copy and succeed at the far one."""
+    import copy
+    L = gen_sel(rng, 0, maxlen=rng.choice([1, 2]), rich=False)
+    M = gen_comp(rng, 0, rich=False, allow_star=False)
+    if M["el"] is None:
+        M["el"] = rng.choice(ELEMS[:-1])
+    S = gen_comp(rng, 0, rich=False)
+    k = rng.choice("PPJS")
+    filler = comp(el="zz", cl=[rng.choice(CLASSES)] if rng.random() < 0.5 else [])
+    M2 = copy.deepcopy(M)
+    if rng.random() < 0.5:
+        M2["cl"] = list(dict.fromkeys(M2["cl"] + [rng.choice(CLASSES + ["e"])]))
+    left = sel(M, [k, L])                                        # L k M
+    a = sel(S, ["A", left])
+    b = sel(copy.deepcopy(S), [rng.choice("AP"), sel(filler, ["A", copy.deepcopy(left)])])
+    c = sel(copy.deepcopy(S), [rng.choice("AP"), sel(M2, [rng.choice("AP"), sel(copy.deepcopy(filler), ["A", copy.deepcopy(left)])])])
+    if rng.random() < 0.3:                                       # two near copies
+        c = sel(copy.deepcopy(S), ["A", sel(copy.deepcopy(M2), ["A", c["rel"][1]])])
+    wrap = rng.random()
+    if wrap < 0.2:                                               # inside a list
+        other = gen_sel(rng, 0, rich=False)
+        return [other, a], [b], [c]
+    if wrap < 0.35:                                              # inside :is()
+        w = lambda s: sel(comp(ps=[["is", False, ["s", [s]]]]))
+        return [w(a)], [w(b)], [w(c)]
+    return [a], [b], [c]
+
+
 def gen_list(rng, depth=None, nmax=3):
     depth = rng.choice([0, 0, 1, 1, 2]) if depth is None else depth
     return gen_sels(rng, depth, ph=0.05, nmax=nmax, other=True)
@@ -147,6 +179,11 @@ def gen_list(rng, depth=None, nmax=3):
 
 CORPUS = [
     (0, [([sel(comp(el="a"))], [sel(comp(el="a", cl=["b"]))])]),
+    (2, [([chain(comp(el="a"), "P", comp(el="b"), "A", comp(el="c"))], [chain(comp(el="a"), "P", comp(el="b"), "A", comp(el="x"), "A", comp(el="c"))]),
+         ([chain(comp(el="a"), "P", comp(el="b"), "A", comp(el="x"), "A", comp(el="c"))],
+          [chain(comp(el="a"), "P", comp(el="b"), "A", comp(el="x"), "A", comp(el="b"), "A", comp(el="c"))]),
+         ([chain(comp(el="a"), "P", comp(el="b"), "A", comp(el="c"))],
+          [chain(comp(el="a"), "P", comp(el="b"), "A", comp(el="x"), "A", comp(el="b"), "A", comp(el="c"))])]),
     (0, [([sel(comp(el="a", cl=["b"]))], [sel(comp(el="a"))])]),
     (0, [([chain(comp(el="a"), "A", comp(el="b"))], [chain(comp(el="a"), "P", comp(el="x"), "S", comp(el="y"), "A", comp(el="b"))])]),
     (0, [([chain(comp(el="a"), "S", comp(el="b"))], [chain(comp(el="a"), "J", comp(el="x"), "S", comp(el="b"))])]),
@@ -189,6 +226,9 @@ def gen_cases(ctx, tier):
         c = spec_list(rng, b)
         if rng.random() < 0.3:
             c = spec_list(rng, c)
+        cases.append({"kind": 2, "qs": [[a, b], [b, c], [a, c]]})
+    for _ in range(200 * n):                       # ancestor walk that has to backtrack
+        a, b, c = backtrack_triple(rng)
         cases.append({"kind": 2, "qs": [[a, b], [b, c], [a, c]]})
     return cases
 
